@@ -37,6 +37,16 @@ def _associative_binary_to_nary(binary_op):
     return nary_op
 
 
+def _fixed_arity(op, n):
+    @use_name_of(op)
+    def inner(*args):
+        if len(args) != n:
+            raise ValueError(f"Expected {n} argument tensor{'s' if n != 1 else ''}, but got {len(args)}")
+        return op(*args)
+
+    return inner
+
+
 def _unsqueeze(classical, tensor, axis):
     if axis < 0:
         axis += tensor.ndim + 1
